@@ -46,6 +46,14 @@ func zzH11Once() {
 		if mode == Advertise && !st.anyFailure {
 			zzAssert(zzNot(st.value), "autoconf-disabled-while-connection-held")
 		}
+		if mode == Advertise {
+			// this connection's own set-up tried to disable autoconf, and a
+			// write that went through is still in effect
+			zzAssert(st.lastDisable != 0 && st.phase == 1, "disable-attempted-for-the-held-connection")
+			if st.lastDisable == 1 {
+				zzAssert(zzNot(st.value) && st.owed, "autoconf-disabled-while-connection-held")
+			}
+		}
 		held = true
 		if rounds >= maxRounds {
 			k := zzNondetChoice("task.final", 2) * zzEOpaque // nil or unrecoverable
@@ -70,8 +78,17 @@ func zzH11Once() {
 	zzAssert(!leak, "every-connection-cleaned-up-exactly-once")
 	if mode == Monitor {
 		zzAssert(st.getCalls == 0 && len(st.sets) == 0, "monitor-never-touches-autoconf")
-	} else if !st.anyFailure {
-		zzAssert(st.value == initial, "autoconf-restored")
+	} else {
+		if !st.anyFailure {
+			zzAssert(st.value == initial, "autoconf-restored")
+		}
+		// with failures too: every disable that was written is followed by a
+		// restore attempt before Dial returns, and unless a restore write
+		// itself failed the setting is back to what it was
+		zzAssert(!st.owed, "restore-attempted-on-every-exit-path")
+		if st.restoreFailed == 0 {
+			zzAssert(st.value == initial, "autoconf-restored-despite-earlier-failures")
+		}
 	}
 	// a restore failure other than permission-denied / vanished interface is
 	// reported, and nothing further is opened after it
